@@ -68,27 +68,22 @@ leading block of `#` lines: the ignore comment inserted above it becomes a file-
 def D16_ignoreAboveLineOne (lines : List Line) (raw : List Diag) : Bool :=
   raw.any fun d => inHeader lines d.line
 
-/-- **Class `splitlinesMismatch`**: the file contains a character at which `str.splitlines` breaks lines but
-`readlines` and the tokenizer do not (form feed, `\x0b`, `\x1c`‥`\x1e`, `\x85`, U+2028/9, a bare `\r`). -/
-def D16_splitlinesMismatch (lines : List Line) : Bool := lines.any fun l => l.any isExtraSep
-
-def NoExtraSep (lines : List Line) : Bool := !D16_splitlinesMismatch lines
+/-- **Former class `splitlinesMismatch`** (repaired by ba62f49; kept for the regression witness): the file
+contains a character at which `str.splitlines` breaks lines but `readlines` and the tokenizer do not
+(form feed, `\x0b`, `\x1c`‥`\x1e`, `\x85`, U+2028/9, a bare `\r`). -/
+def oldD16_splitlinesMismatch (lines : List Line) : Bool := lines.any fun l => l.any isExtraSep
 
 /-- Every diagnostic points at a line of the file. -/
 def InRange (lines : List Line) (raw : List Diag) : Bool :=
   raw.all fun d => decide (1 ≤ d.line) && decide (d.line ≤ lines.length)
 
-/-- Error-code names contain no line-breaking character (they are identifiers). -/
-def CleanCodes (raw : List Diag) : Bool := raw.all fun d => !d.code.toList.any isExtraSep
-
 /-- The scope of the termination theorem, as one decidable predicate. -/
 def AddIgnoresOK (st : St) : Bool :=
-  NoExtraSep st.lines && CleanCodes st.raw && InRange st.lines st.raw &&
-    !D16_twoCodesOneLine st.raw && !D16_ignoreAboveLineOne st.lines st.raw
+  InRange st.lines st.raw && !D16_twoCodesOneLine st.raw && !D16_ignoreAboveLineOne st.lines st.raw
 
 /-- The scope without the one-code-per-line condition. -/
 def AddIgnoresScope (st : St) : Bool :=
-  NoExtraSep st.lines && CleanCodes st.raw && InRange st.lines st.raw && !D16_ignoreAboveLineOne st.lines st.raw
+  InRange st.lines st.raw && !D16_ignoreAboveLineOne st.lines st.raw
 
 /-- Two diagnostics with different codes on one line that nothing silences yet: no file-level ignore for
 either code, no trailing ignore comment on their line, and the line above is not a bare ignore comment.
@@ -251,11 +246,17 @@ def lexTrace : Lex → List Line → List (Lex × Line)
 /-- The lines of a statement that starts on `first` and ends on `stmtEnd` (`ast` `lineno`/`end_lineno`). -/
 def specRange (first stmtEnd : Nat) : List Nat := List.range' first (stmtEnd + 1 - first)
 
-/-- **Class `stmtRange`**: the indentation heuristic of `get_line_range_for_node` misjudges the extent of
-the statement: its last line is not recognised as part of it (a multi-line statement whose last line is
-neither indented deeper than the first, nor starts with a closing bracket at the same indentation, nor is a
-lone triple quote), or the line after it is taken for part of it. -/
-def D16_stmtRange (lines : List Line) (first stmtEnd : Nat) : Bool :=
+/-- **Class `stmtRangeOverrun`** (what is left of `stmtRange` after d5dca9e): the indentation heuristic of
+`get_line_range_for_node` takes the line *after* the statement for part of it — a line indented deeper than
+the statement's first line (only a comment can be, in valid Python), a line starting with a closing bracket
+at the same indentation, or a lone triple quote when the statement's first line contains one (the opening
+line of a following string statement). -/
+def D16_stmtRangeOverrun (lines : List Line) (first stmtEnd : Nat) : Bool :=
+  decide (stmtEnd < lines.length) && isPartOfSameNode (lineAt lines first) (lineAt lines (stmtEnd + 1))
+
+/-- **Former class `stmtRange`** (before d5dca9e; kept for the regression witness): additionally, the last
+line of a multi-line statement was dropped unless the heuristic accepted it. -/
+def oldD16_stmtRange (lines : List Line) (first stmtEnd : Nat) : Bool :=
   (decide (first < stmtEnd) && !isPartOfSameNode (lineAt lines first) (lineAt lines stmtEnd)) ||
   (decide (stmtEnd < lines.length) && isPartOfSameNode (lineAt lines first) (lineAt lines (stmtEnd + 1)))
 
